@@ -183,6 +183,11 @@ CLAIMED["C16"]["text"] = CLAIMED["C16"]["text"] + " ROOT module: root batchkeyse
 CLAIMED["C10"]["note"] = CLAIMED["C10"]["note"].replace("(v2)", "(v2 and root)")
 CLAIMED["C16"]["note"] = CLAIMED["C16"]["note"].replace(" v2 module.", " v2 and root modules.")
 
+ROOT_HTTP = (" ROOT module: the resource family through the real root generator, generated root clients against the generated root RegisterResource, same oracles; the v2 HTTP models are "
+             "evaluated on the root cases under Corr/RootHttpCorr.v (equal tables / inference / tunnelling condition and a declaration-level comparison of restli/*.go, re-checked on every run).")
+for _p in ("C02", "C08"):
+    CLAIMED[_p]["text"] = CLAIMED[_p]["text"] + ROOT_HTTP
+
 def main():
     checks, na = [], []
     for p in ALL:
